@@ -5,3 +5,4 @@ import SemverSpec.VersionLang
 import SemverSpec.VersionGrammar
 import SemverSpec.Location
 import SemverSpec.NpmRender
+import SemverSpec.NpmText
